@@ -6,6 +6,7 @@
 package c09kv
 
 import (
+	"bytes"
 	"context"
 	"encoding/binary"
 	"errors"
@@ -14,6 +15,7 @@ import (
 	"math/rand"
 	"os"
 	"path/filepath"
+	"runtime"
 	"sort"
 	"testing"
 
@@ -87,6 +89,7 @@ type world struct {
 	res     *vh.Result
 	src     string
 	done    []Op
+	nAsync  int
 }
 
 var (
@@ -376,6 +379,7 @@ func (w *world) exec(o Op) (ok bool) {
 		rng := storage.SeekRange{Prefix: bts(o.Prefix), Start: bts(o.Start), Backwards: o.Back, SearchDepth: o.Depth}
 		out := []pair{}
 		cutlen := 0
+		after := func() {}
 		api := o.API
 		id, userPrefix, shaped := daoShaped(rng.Prefix)
 		if (api == "dao.Seek" || api == "dao.SeekAsync" || api == "Find" || api == "FindRP") && (!shaped || o.At == 0 || w.L[o.At].d == nil) {
@@ -396,9 +400,7 @@ func (w *world) exec(o Op) (ok bool) {
 			if cut {
 				cutlen = len(rng.Prefix)
 			}
-			for kv := range w.L[o.At].st.SeekAsync(context.Background(), rng, cut) {
-				out = append(out, pair{ints(kv.Key), ints(kv.Value)})
-			}
+			after = w.writeAfterCall(o.At, rng, func() <-chan storage.KeyValue { return w.L[o.At].st.SeekAsync(context.Background(), rng, cut) }, &out)
 		case "dao.Seek":
 			cutlen = len(rng.Prefix)
 			r2 := rng
@@ -441,6 +443,7 @@ func (w *world) exec(o Op) (ok bool) {
 		w.emit(map[string]any{"event": "seek", "at": o.At, "prefix": o.Prefix, "start": st, "back": o.Back,
 			"depth": o.Depth, "cutlen": cutlen, "api": api, "limit": limit, "res": out})
 		w.res.Count([]any{"seek", api, o.Prefix, st, o.Back, o.Depth, out})
+		after()
 		if o.HasImp {
 			pred := make([]pair, len(o.Impl))
 			for i, p := range o.Impl {
@@ -955,6 +958,46 @@ func fromCase(c Case) []Op {
 }
 
 var backends = []string{"memory", "bolt", "leveldb"}
+
+// writeAfterCall: a scan answers for the moment of the CALL. Every other asynchronous scan is followed, before its first
+// result is taken, by writes to the same layer under the sought prefix (a key that was not there appears, the first key
+// of the range disappears); then the results are drained. The writes are ordinary steps of the history: their events
+// follow the scan's event in the trace (returned function). The scheduler is pinned to one thread between the call and the
+// writes, so that the feeding goroutine cannot have started: a scan that takes its view of the layer only when it starts
+// running shows the later writes.
+func (w *world) writeAfterCall(at int, rng storage.SeekRange, call func() <-chan storage.KeyValue, out *[]pair) func() {
+	st := w.L[at].st
+	w.nAsync++
+	if w.nAsync%2 == 1 || rng.SearchDepth != 0 {
+		for kv := range call() {
+			*out = append(*out, pair{ints(kv.Key), ints(kv.Value)})
+		}
+		return func() {}
+	}
+	var first []byte
+	st.Seek(storage.SeekRange{Prefix: rng.Prefix, Start: rng.Start, Backwards: rng.Backwards}, func(k, v []byte) bool {
+		first = bytes.Clone(k)
+		return false
+	})
+	ghost := append(bytes.Clone(rng.Prefix), 0x7e, byte(w.nAsync))
+	prev := runtime.GOMAXPROCS(1)
+	ch := call()
+	st.Put(ghost, []byte{0xee, 0xee})
+	if first != nil {
+		st.Delete(first)
+	}
+	runtime.GOMAXPROCS(prev)
+	for kv := range ch {
+		*out = append(*out, pair{ints(kv.Key), ints(kv.Value)})
+	}
+	w.res.Inc("async_scans_followed_by_writes", 1)
+	return func() {
+		w.emit(map[string]any{"event": "put", "at": at, "key": ints(ghost), "val": []int{0xee, 0xee}})
+		if first != nil {
+			w.emit(map[string]any{"event": "del", "at": at, "key": ints(first)})
+		}
+	}
+}
 
 func TestDriver(t *testing.T) {
 	res := vh.NewResult()
